@@ -30,11 +30,13 @@ type stress struct {
 	stallOn bool
 	lease   time.Duration
 	w       *vtrace.Writer
+	ncommit int // commits begun (touched only under the SQLite writer lock)
 }
 
 type txInfo struct {
 	ops   []op
 	begun bool
+	k     int
 }
 
 func (s *stress) rnd() float64 {
@@ -67,9 +69,11 @@ func (s *stress) handler(point string, fault bool, kv []any) error {
 				ops = append(ops, map[string]any{"op": o.Op, "part": o.Part, "content": o.Content})
 			}
 			info.begun = true
-			s.w.Emit(map[string]any{"t": "cbeg", "ops": ops})
+			s.ncommit++
+			info.k = s.ncommit
+			s.w.Emit(map[string]any{"t": "cbeg", "k": info.k, "ops": ops})
 		case "tx.committed":
-			s.w.Emit(map[string]any{"t": "cend"})
+			s.w.Emit(map[string]any{"t": "cend", "k": info.k})
 		case "tx.rolledback":
 			if info.begun {
 				must(fmt.Errorf("a client transaction failed at SQL COMMIT; the stress trace cannot represent this"))
@@ -101,10 +105,16 @@ func runStress(dir string, rounds int, traceFile string, lease time.Duration) {
 	fmt.Sscan(os.Getenv("VERIF_SEED"), &seed)
 	for round := 1; round <= rounds; round++ {
 		rdir := filepath.Join(dir, fmt.Sprintf("r%d", round))
-		wd := openWorld(rdir, []string{"p", "q", "r"}, lease, nil, w, fmt.Sprintf("r%d", round))
+		// odd rounds: short lease + random stalls of heartbeats and inner-store writes (leases get lost);
+		// even rounds: long lease, no stalls (the plain concurrent behaviour)
+		stallOn, rl := round%2 == 1, lease
+		if !stallOn {
+			rl = 25 * lease
+		}
+		wd := openWorld(rdir, []string{"p", "q", "r"}, rl, nil, w, fmt.Sprintf("r%d", round))
 		s := &stress{wd: wd, rng: rand.New(rand.NewSource(seed*1000 + int64(round))), txs: map[*database.TxController]*txInfo{},
-			stallOn: round%2 == 1, lease: lease, w: w}
-		wd.sh.stall = func(string) { s.maybeStall(0.25, 4*lease) }
+			stallOn: stallOn, lease: rl, w: w}
+		wd.sh.stall = func(string) { s.maybeStall(0.25, 4*rl) }
 		verifhook.SetHandler(s.handler)
 		w.Emit(map[string]any{"t": "sreset", "round": round, "stalls": s.stallOn})
 		a, b := wd.newInstance("W1", 0), wd.newInstance("W2", 0)
